@@ -1,0 +1,7 @@
+//go:build verif
+
+package retry
+
+// VerifWithWaiter exposes the unexported withWaiter option, so that the verification harness
+// can drive Retry's select with a Waiter whose channels it controls (no real time involved).
+func VerifWithWaiter(w Waiter) RetryOption { return withWaiter(w) }
